@@ -99,8 +99,10 @@ def run():
     rows_expr = "[" + "; ".join("(%s, %d, %d%%nat)" % (coq_codes(p).replace("%N", ""), b, n) for p, b, n in rows) + "]"
     iunits = info.get("interval_units") or ["microseconds", "milliseconds", "seconds", "minutes", "hours", "days", "weeks", "months", "years"]
     ifields = info.get("interval_fields") or [(u, u[:-1].upper(), u == "weeks") for u in reversed(iunits)]
-    istyles = {n_: (a_, b_) for n_, a_, b_ in (info.get("interval_styles") or [(d, *{"postgres": ("ValueAndUnitQuoted",) * 2, "glaredb": ("ValueAndUnitQuoted",) * 2, "snowflake": ("ValueAndUnitQuoted",) * 2,
-                                                                                      "redshift": ("ValueAndUnitQuoted", "ValueQuoted")}.get(d, ("NoQuotes", "NoQuotes"))) for d in ALL_DIALECTS])}
+    _ist = info.get("interval_styles") or [(d, *{"postgres": ("ValueAndUnitQuoted",) * 2, "glaredb": ("ValueAndUnitQuoted",) * 2, "snowflake": ("ValueAndUnitQuoted",) * 2,
+                                                 "redshift": ("ValueAndUnitQuoted", "ValueQuoted")}.get(d, ("NoQuotes", "NoQuotes")), d not in ("sqlite", "mssql")) for d in ALL_DIALECTS]
+    istyles = {x_[0]: (x_[1], x_[2]) for x_ in _ist}
+    isupported = {x_[0]: x_[3] for x_ in _ist}          # has_interval_literal (fix 19e2c2a: false for sqlite, mssql = compile error)
     units_expr = "[" + "; ".join(coq_codes(u) for u in iunits) + "]"
     fields_expr = "[" + "; ".join("(%s, (%s, %s))" % (coq_codes(u), coq_codes(f), "true" if w else "false") for u, f, w in ifields) + "]"
     STY = {"NoQuotes": "INoQuotes", "ValueAndUnitQuoted": "IValueAndUnitQuoted", "ValueQuoted": "IValueQuoted"}
@@ -664,13 +666,13 @@ def run():
     ikeys = sorted(icalls)
     if model_ok and ikeys:
         try:
-            iexprs = ["[%s]" % "; ".join("interval_text %s (%s, %s) (emit_int (%d)%%Z) %s" % (fields_expr, STY[istyles[d_][0]], STY[istyles[d_][1]], n_, coq_codes(u_)) for (d_, n_, u_) in ikeys[i:i + 40])
+            iexprs = ["[%s]" % "; ".join("interval_text_for %s %s (%s, %s) (emit_int (%d)%%Z) %s" % ("true" if isupported[d_] else "false", fields_expr, STY[istyles[d_][0]], STY[istyles[d_][1]], n_, coq_codes(u_)) for (d_, n_, u_) in ikeys[i:i + 40])
                       for i in range(0, len(ikeys), 40)]
             iflat = [x for v in coq_eval(HEADER.replace("Model.Literal.", "Model.Literal Model.Interval."), iexprs) for x in v]
             for key, m in zip(ikeys, iflat):
                 e = icalls[key]
                 ck.count("literal-hook-interval", "%s|%d|%s" % key)
-                ck.stat("literal-hook-interval", istyles[key[0]][0] + "/" + istyles[key[0]][1])
+                ck.stat("literal-hook-interval", (istyles[key[0]][0] + "/" + istyles[key[0]][1]) if isupported[key[0]] else "rejected")
                 mo = None if m == "None" else s_of(m[1])
                 if e["out"] != mo:
                     ck.violation("translate_literal returned %r for the interval %d %s on %s; the model says %r" % (e["out"], key[1], key[2], key[0], mo),
@@ -762,14 +764,14 @@ def run():
         if k < 4:
             return ck.rng.choice(strs)
         if k < 6:
-            return ck.rng.choice([0, 1, -1, 42, 2**31, 2**53 + 1, 2**63 - 1, 2**63, 2**64 - 1, 2**64, -2**63, -2**63 - 1, 10**25, ck.rng.randrange(-10**6, 10**6)])
+            return ck.rng.choice([0, 1, -1, 42, 2**31, 2**53 + 1, 2**63 - 1, 2**64, -2**63, -2**63 - 1, 10**25, ck.rng.randrange(-10**6, 10**6), ck.rng.randrange(-10**6, 10**6), ck.rng.choice([2**63, 2**64 - 1])])
         if k == 6:
             return ck.rng.choice([1.5, 0.1, 1e22, 5e-324, 1.7976931348623157e308, -0.0, 2.5e-7, 1e16, -123.456, 0.30000000000000004])
         if k == 7:
             return ck.rng.choice([True, False])
         if k == 8:
             return None
-        return ck.rng.choice([[1, 2], {"x": 1}, []])
+        return ck.rng.choice([[1, 2], {"x": 1}, []]) if ck.rng.random() < 0.3 else ck.rng.choice(strs)
     ft = []          # (format, prql source, columns, rows of python values, document text)
     for _ in range(ck.n(60, 600)):
         nc, nr = ck.rng.randrange(1, 4), ck.rng.randrange(1, 4)
@@ -800,8 +802,6 @@ def run():
     fex = harness("exec", [{"setup": [], "sql": a.get("ok", "SELECT 1")} for a in fans])
 
     def cl_ft(case):
-        if case.get("format") == "json" and case.get("cell_class") in ("u64", "container"):
-            return "C08-N2-json-cell-becomes-null"
         if case.get("format") == "csv" and case.get("doc") is not None and case["doc"] != case["doc"].strip():
             return "C08-N3-csv-text-trimmed"
         return None
@@ -823,7 +823,7 @@ def run():
     if model_ok and jcells:
         try:
             vals = coq_eval(HEADER.replace("Model.Literal.", "Model.Literal Model.FromText."),
-                            ["map (fun v => rlit_view (map_json_primitive v)) [%s]" % "; ".join(jcells[i:i + 60]) for i in range(0, len(jcells), 60)])
+                            ["map json_cell_view [%s]" % "; ".join(jcells[i:i + 60]) for i in range(0, len(jcells), 60)])
             jmodel = dict(zip(jcells, [x for v in vals for x in v]))
         except RuntimeError as ex:
             ck.coverage["model_eval_error_fromtext"] = str(ex)[-600:]
@@ -837,6 +837,14 @@ def run():
         ck.count("from-text", src, nontrivial=("'" in doc or "\\" in doc))
         ck.stat("from-text", fmt)
         case = {"kind": "from-text", "format": fmt, "src": src, "doc": doc}
+        # since fix d86674e a document with a cell the model rejects (integer in [2^63, 2^64), array, object) is a compile error
+        rejected = fmt == "json" and any(jmodel.get(jterm(c)) == "None" for r_ in rows for c in r_)
+        if rejected:
+            ck.stat("from-text", "rejected-document")
+            reasons = [e_.get("reason") or "" for e_ in a.get("err", [])]
+            if "ok" in a or not any("json:" in r_ for r_ in reasons):
+                ck.violation("from_text json document with a cell that cannot be represented must be rejected; got %s" % (a.get("ok") or reasons), dict(case, compile={k_: v_ for k_, v_ in a.items() if k_ != "entries"}))
+            continue
         if "ok" not in a:
             ck.disagreement("from_text document does not compile: %s" % (a.get("err", [{}])[0].get("reason") if a.get("err") else a), dict(case, compile={k_: v_ for k_, v_ in a.items() if k_ != "entries"}), cl_ft)
             continue
@@ -850,8 +858,8 @@ def run():
                 got = lit_view_py(e["lit"])
                 if fmt == "csv":
                     want = (4, c, 0)
-                elif jterm(c) in jmodel:
-                    tag_, payload_, (sg_, mag_) = jmodel[jterm(c)]
+                elif jterm(c) in jmodel and jmodel[jterm(c)] != "None":
+                    tag_, payload_, (sg_, mag_) = jmodel[jterm(c)][1]
                     want = (tag_, s_of(payload_), -mag_ if sg_ else mag_)
                 else:
                     continue
